@@ -1,6 +1,7 @@
 package wsp
 
 import (
+	"fmt"
 	"net"
 
 	"github.com/cnotch/xlog"
@@ -21,4 +22,20 @@ func (v *VerifServer) Sessions() int {
 	n := 0
 	v.svr.sessions.Range(func(k, val interface{}) bool { n++; return true })
 	return n
+}
+
+// Session returns the control session registered for a channel id (nil if none).
+func (v *VerifServer) Session(channel string) *Session {
+	if s, ok := v.svr.sessions.Load(channel); ok {
+		return s.(*Session)
+	}
+	return nil
+}
+
+func (s *Session) VerifStatus() int  { return s.status }
+func (s *Session) VerifPaused() bool { return s.paused }
+func (s *Session) VerifClosed() bool { return s.closed }
+func (s *Session) VerifHasCid() bool { return s.cid != nil }
+func (s *Session) VerifTransport() string {
+	return fmt.Sprint(int(s.transport.Mode), int(s.transport.Type), s.transport.Channels)
 }
